@@ -172,6 +172,13 @@ type PipeSender[T any] struct {
 //
 // Send may be called concurrently with other Sends and with Close.
 func (s *PipeSender[T]) Send(ctx context.Context, x T) error {
+	// A sender that is already closed never sends: without this check the send below races with
+	// senderDone and could slip a value in after the receiver was told about the end.
+	select {
+	case <-s.senderDone:
+		return *s.senderErr
+	default:
+	}
 	select {
 	case <-ctx.Done():
 		return ctx.Err()
@@ -234,6 +241,12 @@ func (s *pipeStream[T]) Next(ctx context.Context) (T, error) {
 	case item := <-s.c:
 		return item, nil
 	case <-s.senderDone:
+		// Values sent before the close may still be buffered; deliver them before the end.
+		select {
+		case item := <-s.c:
+			return item, nil
+		default:
+		}
 		err := *s.senderErr
 		if err != nil {
 			return zero, err
